@@ -153,7 +153,8 @@ def interp(e, scale):
             from checks.c16_lowpass import ref_lowpass
             return "c", lambda img: ref_lowpass(img, a[0], 2)
         if n == "shift":
-            return "c", lambda img: ndi.shift(img, np.asarray(a) / scale, order=1, prefilter=True, mode="nearest", cval=0.0)
+            # documented signature: shift(shift, *, order=3, mode="nearest", cval=0.0)
+            return "c", lambda img: ndi.shift(img, np.asarray(a) / scale, order=3, prefilter=True, mode="nearest", cval=0.0)
         return "c", lambda img: RAW[n](img, scale, *a)
     if t == "neg":
         k, v = interp(e["x"], scale)
@@ -316,7 +317,15 @@ def judge_units(d):
             b = pipe.shift(tuple(sh * scale * lam))(img, scale * lam)
             if not close(a, b):
                 out.append(viol("C19/scale-covariance:shift", f"shift={sh.tolist()}px scale={scale} lambda={lam}: results differ"))
-            com0 = np.array(ndi.center_of_mass(np.abs(img) + 1))
+            # physical units and the interpolation order: the curried converter behaves like scipy's shift by shift/scale pixels
+            for o in (None, 1, 3):
+                conv = pipe.shift(tuple(sh * scale)) if o is None else pipe.shift(tuple(sh * scale), order=o)
+                got = np.asarray(conv(img, scale))
+                want = ndi.shift(img, sh, order=3 if o is None else o, prefilter=(3 if o is None else o) > 1, mode="nearest", cval=0.0)
+                if not close(got, want):
+                    out.append(viol("C19/physical-units:shift", f"shift={sh.tolist()}px order={'default(3)' if o is None else o}: differs from scipy.ndimage.shift by "
+                                    f"{np.abs(got - want).max():.3g}"))
+                    break
         elif kind in ("cov-dilation", "cov-closing"):
             f = pipe.dilation if kind == "cov-dilation" else pipe.closing
             r_px = d["px"] * d["sign"]
